@@ -16,7 +16,7 @@ ASSUMPTIONS = base.ASSUMPTIONS + ['exit(1) inside svf_parse_flags is the rejecti
                                   'signature checks answer through one uninterpreted oracle shared by both executions',
                                   'the session-level fRequireMinimal/is_p2sh bits are derived from the same flag word at construction']
 OUTSIDE = ['flag lists longer than two entries (the parser loop is uniform in the number of entries)', 'flag tokens of 127+ characters (stack buffer; decided by C15)']
-BOUNDS = 'parse: every +NAME/-NAME (21 names), ordered pairs (sampled by seed in quick, all 1764 in thorough), every string of length 0..6 with all characters symbolic; monotonicity: every opcode x {BASE,WITNESS_V0,TAPSCRIPT}, operands 1 byte (symbolic), flags A,B symbolic with A subset-of B'
+BOUNDS = 'parse: every +NAME/-NAME (21 names), ordered pairs (sampled by seed in quick, all 1764 in thorough), every string of length 0..6 with all characters symbolic; monotonicity: every opcode x {BASE,WITNESS_V0,TAPSCRIPT}, operands 1 byte (symbolic), signature opcodes also with signature lengths {0,1,9,64} x key lengths {32,33,65}, flags A,B symbolic with A subset-of B'
 
 NAMES = ['P2SH', 'STRICTENC', 'DERSIG', 'LOW_S', 'NULLDUMMY', 'SIGPUSHONLY', 'MINIMALDATA', 'DISCOURAGE_UPGRADABLE_NOPS', 'CLEANSTACK', 'CHECKLOCKTIMEVERIFY', 'CHECKSEQUENCEVERIFY',
          'WITNESS', 'DISCOURAGE_UPGRADABLE_WITNESS_PROGRAM', 'MINIMALIF', 'NULLFAIL', 'WITNESS_PUBKEYTYPE', 'CONST_SCRIPTCODE', 'TAPROOT', 'DISCOURAGE_UPGRADABLE_TAPROOT_VERSION',
@@ -53,6 +53,15 @@ def obligations(tier, seed):
             if o in base.LOCK: ck = 1
             for vf in ((0, None), (1, 0)) if o not in base.CONTROL else ((0, None), (1, 0), (1, None)):
                 obs.append(dict(name='mono/op%02x/sv%d/vf%d-%s' % (o, sv, vf[0], vf[1]), kind='mono', op=o, sv=sv, vf=vf, k=k, checker=ck))
+            # signature opcodes: the encoding rules look at signature and key lengths (seed C09-2: STRICTENC switched on hid the WITNESS_PUBKEYTYPE rule for 65-byte keys)
+            if o in R.SIGOPS:
+                if o in (0xac, 0xad): shapes = [(sl, kl) for sl in (0, 1, 9) for kl in (32, 33, 65)]
+                elif o == 0xba: shapes = [(sl, 1, kl) for sl in (0, 1, 64) for kl in (1, 32, 33)]
+                else: shapes = [(0, sl, 1, kl, 1) for sl in (0, 9) for kl in (33, 65)]
+                if sv == R.TAPSCRIPT and o in (0xae, 0xaf): shapes = []
+                if sv != R.TAPSCRIPT and o == 0xba: shapes = []
+                for sh in shapes:
+                    obs.append(dict(name='mono/op%02x/sv%d/st%s' % (o, sv, '.'.join(map(str, sh))), kind='mono', op=o, sv=sv, vf=(0, None), k=k, checker=ck, lens=sh))
     return obs
 
 def ref_parse(in_flags, s):
@@ -123,6 +132,9 @@ def mono_ob(ob):
     if o < 0x4c: d['plen'] = o
     elif o <= 0x4e: d['plen'] = 1
     if o in (0xae, 0xaf): d['lens'] = (0, 1, 1, 1, 1); d['cvals'] = {'2': [1], '4': [1]}
+    if ob.get('lens'):
+        d['lens'] = tuple(ob['lens'])
+        if o in (0xae, 0xaf): d['cvals'] = {'2': [1], '4': [1]}
     return d
 
 def run_mono(E, ob):
